@@ -47,6 +47,7 @@ Accept(t) == LET r == TLog[t] IN
                                      (\A w \in 1..u : r.data[w] # NaN) => r.inv[u] = r.data[u] * r.sc)
         /\ (r.err \/ r.fn = "sim") \/ Clause(t, "nan-input-zero-residual", \A u \in 1..Len(r.data) :
                                      r.data[u] = NaN => r.out[u] = 0)
+        /\ r.err \/ Clause(t, "default-mean-and-initial-value", r.defaults_ok)
         /\ Clause(t, "arguments-unchanged", r.argsame)
 VARIABLE dummy
 TrivInit == dummy = 0
